@@ -138,7 +138,11 @@ def state_strata(tier):
     else:
         ns = {1: [3, 4, 7, 12, 25, 40], 2: [3, 4, 7, 10, 13, 16], 3: [3, 4, 5, 8, 9, 10]}
     cs = (1, 3) if tier == "quick" else (1, 2, 3)
-    return [dict(id="D%d-N%d-C%d" % (D, N, C), D=D, N=N, C=C) for D in (1, 2, 3) for N in ns[D] for C in cs] + [dict(id="D%d-anyN-C2" % D, D=D, N="any", C=2, n_max={1: 300, 2: 48, 3: 16}[D]) for D in (1, 2, 3)]
+    return [dict(id="D%d-N%d-C%d" % (D, N, C), D=D, N=N, C=C) for D in (1, 2, 3) for N in ns[D] for C in cs] + [dict(id="D%d-anyN-C2" % D, D=D, N="any", C=2, n_max={1: 300, 2: 48, 3: 16}[D]) for D in (1, 2, 3)] + [
+        # even sizes with N*fl(1/N) != 1: the Nyquist wavenumber must still be recognised (scaling of the Nyquist bin)
+        dict(id="D%d-N%d-C1" % (D, N), D=D, N=N, C=1)
+        for D, N in ((1, 98), (1, 196), (1, 214), (2, 98))
+    ]
 
 
 def strat_state(stratum, tier):
